@@ -1888,6 +1888,10 @@ class UserSpaceImpl(*_user_space_impl_base):
             else:   # defined
                 selfdict[name] = selfdict.pop(name)
 
+    def on_delete(self):
+        self.model.refmgr.del_space_refs(self)
+        super().on_delete()
+
     def on_del_cells(self, name):
         cells = self.cells[name]
         self.model.clear_obj(cells)
